@@ -136,7 +136,11 @@ func subsetMasks(n, k int, limit int, r *lib.RNG) []uint64 {
 // juno's wrappers for one (k, p, data).
 func rsCase(h *hctx, k, p int, data []byte, r *lib.RNG) {
 	seedForReplay := r.Uint64() >> 12
-	r = lib.NewRNG(seedForReplay)
+	h.guard("rs", map[string]any{"kind": "rs", "k": k, "p": p, "data": hx(data), "rng": seedForReplay}, func() { rsCase0(h, k, p, data, seedForReplay) })
+}
+
+func rsCase0(h *hctx, k, p int, data []byte, seedForReplay uint64) {
+	r := lib.NewRNG(seedForReplay)
 	rp := map[string]any{"kind": "rs", "k": k, "p": p, "data": hx(data), "rng": seedForReplay}
 	n := k + p
 	h.res.Case(fmt.Sprintf("rs/%d/%d/%x", k, p, clipB(data)), n >= 2)
@@ -351,9 +355,14 @@ func modelConstruct(h *hctx, sig string, input any, units []*propeller.Unit, loc
 
 func e2eCase(h *hctx, k, p int, msg []byte, nonce uint64, r *lib.RNG, subsetLimit int) {
 	seedForReplay := r.Uint64() >> 12
-	r = lib.NewRNG(seedForReplay)
+	h.guard("e2e", map[string]any{"kind": "e2e", "k": k, "p": p, "msg": hx(msg), "nonce": strconv.FormatUint(nonce, 10), "rng": seedForReplay, "subset_limit": subsetLimit},
+		func() { e2eCase0(h, k, p, msg, nonce, seedForReplay, subsetLimit) })
+}
+
+func e2eCase0(h *hctx, k, p int, msg []byte, nonce uint64, seedForReplay uint64, subsetLimit int) {
+	r := lib.NewRNG(seedForReplay)
 	rp := func(extra map[string]any) map[string]any {
-		m := map[string]any{"kind": "e2e", "k": k, "p": p, "msg": hx(msg), "nonce": nonce, "rng": seedForReplay}
+		m := map[string]any{"kind": "e2e", "k": k, "p": p, "msg": hx(msg), "nonce": strconv.FormatUint(nonce, 10), "rng": seedForReplay, "subset_limit": subsetLimit}
 		for a, b := range extra {
 			m[a] = b
 		}
